@@ -9,6 +9,7 @@ set_option linter.unusedSimpArgs false
 
 theorem apply_slide_right_b (basis : Array W) (p : Pos) (x y : Nat) (hx : x + 1 < p.cfg.size) (hy : y < p.cfg.size)
     (h64 : p.cfg.size * p.cfg.size ≤ 64) (hply : 2 ≤ p.move) (hw : p.toMove = .black)
+    (hdis : ∀ k, p.white.getLsbD k = true → p.black.getLsbD k = true → False)
     (hown : p.black.getLsbD (x + y * p.cfg.size) = true)
     (hnw : p.white.getLsbD (x + y * p.cfg.size) = false)
     (hns : p.standing.getLsbD (x + y * p.cfg.size) = false)
@@ -17,7 +18,7 @@ theorem apply_slide_right_b (basis : Array W) (p : Pos) (x y : Nat) (hx : x + 1 
     (hts : p.standing.getLsbD (x + 1 + (y) * p.cfg.size) = false)
     (htc : p.caps.getLsbD (x + 1 + (y) * p.cfg.size) = false) :
     ∃ q, p.apply basis ⟨x, y, Facts.mtSlideRight, 1#32⟩ = .ok q ∧
-      After p q (x + y * p.cfg.size) (x + 1 + (y) * p.cfg.size) p.black q.black := by
+      After p q (x + y * p.cfg.size) (x + 1 + (y) * p.cfg.size) p.black q.black p.white q.white := by
   have h2 : ¬ (p.move < 2) := by omega
   have hx' : ¬ ((p.cfg.size : Int) ≤ x) := by omega
   have hy' : ¬ ((p.cfg.size : Int) ≤ y) := by omega
@@ -79,6 +80,7 @@ theorem apply_slide_right_b (basis : Array W) (p : Pos) (x y : Nat) (hx : x + 1 
 
 theorem apply_slide_left_b (basis : Array W) (p : Pos) (x y : Nat) (hx0' : 1 ≤ x) (hx : x < p.cfg.size) (hy : y < p.cfg.size)
     (h64 : p.cfg.size * p.cfg.size ≤ 64) (hply : 2 ≤ p.move) (hw : p.toMove = .black)
+    (hdis : ∀ k, p.white.getLsbD k = true → p.black.getLsbD k = true → False)
     (hown : p.black.getLsbD (x + y * p.cfg.size) = true)
     (hnw : p.white.getLsbD (x + y * p.cfg.size) = false)
     (hns : p.standing.getLsbD (x + y * p.cfg.size) = false)
@@ -87,7 +89,7 @@ theorem apply_slide_left_b (basis : Array W) (p : Pos) (x y : Nat) (hx0' : 1 ≤
     (hts : p.standing.getLsbD (x - 1 + (y) * p.cfg.size) = false)
     (htc : p.caps.getLsbD (x - 1 + (y) * p.cfg.size) = false) :
     ∃ q, p.apply basis ⟨x, y, Facts.mtSlideLeft, 1#32⟩ = .ok q ∧
-      After p q (x + y * p.cfg.size) (x - 1 + (y) * p.cfg.size) p.black q.black := by
+      After p q (x + y * p.cfg.size) (x - 1 + (y) * p.cfg.size) p.black q.black p.white q.white := by
   have h2 : ¬ (p.move < 2) := by omega
   have hx' : ¬ ((p.cfg.size : Int) ≤ x) := by omega
   have hy' : ¬ ((p.cfg.size : Int) ≤ y) := by omega
@@ -149,6 +151,7 @@ theorem apply_slide_left_b (basis : Array W) (p : Pos) (x y : Nat) (hx0' : 1 ≤
 
 theorem apply_slide_up_b (basis : Array W) (p : Pos) (x y : Nat) (hx : x < p.cfg.size) (hy : y + 1 < p.cfg.size)
     (h64 : p.cfg.size * p.cfg.size ≤ 64) (hply : 2 ≤ p.move) (hw : p.toMove = .black)
+    (hdis : ∀ k, p.white.getLsbD k = true → p.black.getLsbD k = true → False)
     (hown : p.black.getLsbD (x + y * p.cfg.size) = true)
     (hnw : p.white.getLsbD (x + y * p.cfg.size) = false)
     (hns : p.standing.getLsbD (x + y * p.cfg.size) = false)
@@ -157,7 +160,7 @@ theorem apply_slide_up_b (basis : Array W) (p : Pos) (x y : Nat) (hx : x < p.cfg
     (hts : p.standing.getLsbD (x + (y + 1) * p.cfg.size) = false)
     (htc : p.caps.getLsbD (x + (y + 1) * p.cfg.size) = false) :
     ∃ q, p.apply basis ⟨x, y, Facts.mtSlideUp, 1#32⟩ = .ok q ∧
-      After p q (x + y * p.cfg.size) (x + (y + 1) * p.cfg.size) p.black q.black := by
+      After p q (x + y * p.cfg.size) (x + (y + 1) * p.cfg.size) p.black q.black p.white q.white := by
   have h2 : ¬ (p.move < 2) := by omega
   have hx' : ¬ ((p.cfg.size : Int) ≤ x) := by omega
   have hy' : ¬ ((p.cfg.size : Int) ≤ y) := by omega
@@ -220,6 +223,7 @@ theorem apply_slide_up_b (basis : Array W) (p : Pos) (x y : Nat) (hx : x < p.cfg
 
 theorem apply_slide_down_b (basis : Array W) (p : Pos) (x y : Nat) (hx : x < p.cfg.size) (hy0' : 1 ≤ y) (hy : y < p.cfg.size)
     (h64 : p.cfg.size * p.cfg.size ≤ 64) (hply : 2 ≤ p.move) (hw : p.toMove = .black)
+    (hdis : ∀ k, p.white.getLsbD k = true → p.black.getLsbD k = true → False)
     (hown : p.black.getLsbD (x + y * p.cfg.size) = true)
     (hnw : p.white.getLsbD (x + y * p.cfg.size) = false)
     (hns : p.standing.getLsbD (x + y * p.cfg.size) = false)
@@ -228,7 +232,7 @@ theorem apply_slide_down_b (basis : Array W) (p : Pos) (x y : Nat) (hx : x < p.c
     (hts : p.standing.getLsbD (x + (y - 1) * p.cfg.size) = false)
     (htc : p.caps.getLsbD (x + (y - 1) * p.cfg.size) = false) :
     ∃ q, p.apply basis ⟨x, y, Facts.mtSlideDown, 1#32⟩ = .ok q ∧
-      After p q (x + y * p.cfg.size) (x + (y - 1) * p.cfg.size) p.black q.black := by
+      After p q (x + y * p.cfg.size) (x + (y - 1) * p.cfg.size) p.black q.black p.white q.white := by
   have h2 : ¬ (p.move < 2) := by omega
   have hx' : ¬ ((p.cfg.size : Int) ≤ x) := by omega
   have hy' : ¬ ((p.cfg.size : Int) ≤ y) := by omega
